@@ -122,7 +122,15 @@ func (c *FmtCodec) Do(op Op) {
 	case OpHeading:
 		c.startLine()
 		c.write(strings.Repeat("#", op.Number) + " ")
-		c.writeSegmentsATXHeading(c.buildSegments(op.Content))
+		text := c.atxHeadingText(c.buildSegments(op.Content))
+		if op.Info == "" && atxHeadingAttributeRegexp.MatchString(" "+text) {
+			// The text ends in something that would be parsed as heading
+			// attributes. Only text segments can end in "}", and a character
+			// reference is the only form the attribute pattern doesn't match
+			// (it matches "\}" too).
+			text = text[:len(text)-1] + "&#125;"
+		}
+		c.write(text)
 		if op.Info != "" {
 			c.write(" {" + op.Info + "}")
 		}
@@ -474,7 +482,8 @@ func (c *FmtCodec) buildSegments(ops []InlineOp) []segment {
 
 var atxHeadingCloserLookalike = regexp.MustCompile(`#+$`)
 
-func (c *FmtCodec) writeSegmentsATXHeading(segs []segment) {
+func (c *FmtCodec) atxHeadingText(segs []segment) string {
+	var sb strings.Builder
 	for i, seg := range segs {
 		switch seg.typ {
 		case segText:
@@ -493,15 +502,16 @@ func (c *FmtCodec) writeSegmentsATXHeading(segs []segment) {
 					}
 				}
 			}
-			c.write(text)
+			sb.WriteString(text)
 		case segHTML, segTextNoReflow:
 			// Raw HTML in ATX headings and code spans never contain embedded
 			// newlines, so just write them as is.
-			c.write(seg.text)
+			sb.WriteString(seg.text)
 		case segNewLine:
-			c.write("&NewLine;")
+			sb.WriteString("&NewLine;")
 		}
 	}
+	return sb.String()
 }
 
 func (c *FmtCodec) writeSegmentsParagraph(segs []segment) {
